@@ -36,7 +36,10 @@ impl Size {
     }
 
     /// The amount of bytes of the described size
-    pub fn byte_size(&self) -> SizeType {
+    ///
+    /// Computed in 128 bits: the count is a [SizeType] and the largest unit is 2^40, so the
+    /// product always fits and no size literal can overflow.
+    pub fn byte_size(&self) -> u128 {
         let (Size::Byte(s)
         | Size::Word(s)
         | Size::Block(s)
@@ -45,7 +48,7 @@ impl Size {
         | Size::GigaByte(s)
         | Size::TeraByte(s)) = self;
 
-        s * self.mult()
+        (*s as u128) * (self.mult() as u128)
     }
 }
 
